@@ -46,6 +46,8 @@ type Layout struct {
 	ObjHook func(o *RawObj) `json:"-"`
 	// XrefHook may rewrite a cross-reference section before it is written.
 	XrefHook func(x *RawXref) `json:"-"`
+	// ObjStmHook may rewrite /N, /First and the header pairs of an object stream.
+	ObjStmHook func(s *RawObjStm) `json:"-"`
 }
 
 // RawObj is one object on its way into the file. Drop suppresses it, Twice writes it twice.
@@ -536,6 +538,7 @@ func RenderPDF(doc LDoc, lay Layout) Rendered {
 	prev := int64(-1)
 	ordinal := 0
 	xordinal := 0
+	stmOrdinal := 0
 	for rev := 0; rev <= lay.Revisions; rev++ {
 		entries := map[int]XEntry{}
 		if rev == 0 {
@@ -639,7 +642,13 @@ func RenderPDF(doc LDoc, lay Layout) Rendered {
 			for i, m := range packed {
 				entries[m.Num] = XEntry{Type: 2, F1: int64(stm), F2: i}
 			}
-			off := p.ObjStm(stm, packed, r.Bool(), 0)
+			var stmHook func(*RawObjStm)
+			if lay.ObjStmHook != nil {
+				so := stmOrdinal
+				stmHook = func(s *RawObjStm) { s.Ordinal = so; lay.ObjStmHook(s) }
+			}
+			stmOrdinal++
+			off := p.ObjStmRaw(stm, packed, r.Bool(), 0, stmHook)
 			entries[stm] = XEntry{Type: 1, F1: off}
 		}
 		trailer := fmt.Sprintf("/Root %d 0 R", num(kCat))
